@@ -834,6 +834,12 @@ func (r *Reader) Markdown() (string, error) {
 
 // MarkdownWithOptions returns HTML content as Markdown with options.
 func (r *Reader) MarkdownWithOptions(opts ExtractOptions) (string, error) {
+	return r.markdown(opts, func(level int) int { return level })
+}
+
+// markdown renders the content as Markdown; headingLevel maps the level of an
+// <h1>..<h6> element to the level of the ATX heading written for it.
+func (r *Reader) markdown(opts ExtractOptions, headingLevel func(int) int) (string, error) {
 	var result strings.Builder
 
 	elements := r.getElements(opts.NavigationExclusion)
@@ -843,7 +849,7 @@ func (r *Reader) MarkdownWithOptions(opts ExtractOptions) (string, error) {
 			if result.Len() > 0 {
 				result.WriteString("\n\n")
 			}
-			for i := 0; i < elem.Level; i++ {
+			for i := 0; i < headingLevel(elem.Level); i++ {
 				result.WriteString("#")
 			}
 			result.WriteString(" ")
@@ -949,8 +955,21 @@ func (r *Reader) MarkdownWithRAGOptions(extractOpts ExtractOptions, mdOpts rag.M
 		}
 	}
 
-	// Generate main content
-	md, err := r.MarkdownWithOptions(extractOpts)
+	// Generate main content, with heading levels shifted by the configured
+	// offset and capped at the configured maximum (always within 1..6)
+	md, err := r.markdown(extractOpts, func(level int) int {
+		level += mdOpts.HeadingLevelOffset
+		if level < 1 {
+			level = 1
+		}
+		if mdOpts.MaxHeadingLevel > 0 && level > mdOpts.MaxHeadingLevel {
+			level = mdOpts.MaxHeadingLevel
+		}
+		if level > 6 {
+			level = 6
+		}
+		return level
+	})
 	if err != nil {
 		return "", err
 	}
